@@ -192,9 +192,9 @@ func (f *File) register(path string) string {
 		alias = true
 	}
 
-	// Only add a prefix if the name is an alias (a changed name is always an alias)
+	// Only add a prefix if the name is an alias (a changed name is always an alias), never to a dot-import
 	final := func(candidate string) string {
-		if f.PackagePrefix != "" && (alias || candidate != name) {
+		if f.PackagePrefix != "" && (alias || candidate != name) && candidate != "." {
 			return f.PackagePrefix + "_" + candidate
 		}
 		return candidate
